@@ -26,6 +26,7 @@ type Gen struct {
 	tagsUsed []string
 	idxTags  map[string][]string // repo -> tags that were pushed pointing to an index
 	store    string
+	twins    []string // referrers response documents that have been given a body of their own (names are global)
 }
 
 func (g *Gen) pick(l []string) string { return l[g.r.Intn(len(l))] }
@@ -114,6 +115,11 @@ func (g *Gen) defBody(kind string, toks []string) string {
 	raw := g.h.tk.buildBody(name, kind, toks)
 	if n2, ok := g.h.tk.nameOf[string(raw)]; ok {
 		g.manLen[n2] = len(raw)
+		if _, has := g.h.tk.defOf[n2]; !has && strings.HasPrefix(n2, "R(") {
+			if def, ok := g.h.tk.twinDef(n2); ok {
+				g.emit(def)
+			}
+		}
 		return n2
 	}
 	g.emit(fmt.Sprintf("DEF %s %s %s len=%d", name, kind, strings.Join(toks, " "), len(raw)))
@@ -856,6 +862,10 @@ func (g *Gen) refsStep() {
 	if g.r.Intn(6) == 0 {
 		repo = "r2"
 	}
+	if len(g.twins) > 0 && g.r.Intn(40) == 0 {
+		g.twinFirst(repo)
+		return
+	}
 	switch g.r.Intn(14) {
 	case 0: // a subject
 		name := g.simpleImage(repo)
@@ -990,7 +1000,108 @@ func (g *Gen) refsStep() {
 				}
 			}
 		}
+		// a client pushes the very bytes of the response document as an index of its own (a "twin"): tagged or by digest,
+		// read, listed, deleted by tag and by digest; the referrers list is asked for again after each step
+		if i := strings.Index(out, " body=["); i >= 0 && !strings.Contains(line, " at=") && !strings.Contains(out, "link=next(") && g.r.Intn(4) == 0 {
+			inner := out[i+7:]
+			if j := strings.Index(inner, "] ct="); j > 0 {
+				g.twinSteps(repo, "R("+inner[:j]+")", line)
+			}
+		}
 	}
+}
+
+// twinSteps: the document `name` (a referrers response named by its structure) as a manifest of a client
+func (g *Gen) twinSteps(repo, name, refsLine string) {
+	def, ok := g.h.tk.twinDef(name)
+	if !ok {
+		return
+	}
+	if _, has := g.h.tk.defOf[name]; !has {
+		g.emit(def)
+	}
+	g.twins = append(g.twins, name)
+	ref := g.pick([]string{"tw", "tw", "t1", "sha256:" + name})
+	if out := g.emit(fmt.Sprintf("MPUT %s %s ct=ocii body=%s", repo, ref, name)); strings.HasPrefix(out, "201 ") {
+		g.manMT[name] = "ocii"
+	}
+	k := 2 + g.r.Intn(4)
+	for i := 0; i < k; i++ {
+		switch g.r.Intn(8) {
+		case 0:
+			g.emit(fmt.Sprintf("MDEL %s sha256:%s", repo, name))
+		case 1:
+			g.emit(fmt.Sprintf("MDEL %s %s", repo, g.pick([]string{"tw", "t1"})))
+		case 2:
+			g.emit(fmt.Sprintf("MGET %s %s accept=ocii", repo, g.pick([]string{"tw", "sha256:" + name})))
+		case 3:
+			g.emit("TAGS " + repo)
+		case 4:
+			g.emit(fmt.Sprintf("MPUT %s %s ct=ocii body=%s", repo, g.pick([]string{"tw", "tw2", "sha256:" + name}), name))
+		case 5:
+			if g.profile == "gc" {
+				g.emit("GC " + repo)
+			} else if len(g.manIn[repo]) > 0 { // the list moves on: the twin is then an ordinary index
+				g.emit(fmt.Sprintf("MDEL %s sha256:%s", repo, g.pick(g.manIn[repo])))
+			}
+		default:
+			g.emit(refsLine)
+		}
+	}
+	g.emit(refsLine)
+}
+
+// twinFirst: a document known from an earlier history as a referrers response is pushed by a client before the registry
+// builds it: its children are uploaded as plain blobs, the index is pushed under a tag, then the children are pushed as
+// the artifacts they are, so that the registry arrives at a response with the bytes the client's index already has
+func (g *Gen) twinFirst(repo string) {
+	if len(g.twins) == 0 {
+		return
+	}
+	name := g.pick(g.twins)
+	bi := g.h.bodyInfo(name)
+	if len(bi.refs) == 0 || len(bi.refs) > 3 {
+		return
+	}
+	var kids []string
+	for _, r := range bi.refs {
+		if !strings.HasPrefix(r, "sha256:@") {
+			return
+		}
+		kids = append(kids, strings.TrimPrefix(r, "sha256:"))
+	}
+	for _, c := range kids {
+		g.emit("UPOST " + repo + " digest=sha256:" + c + " body=" + c)
+	}
+	g.emit(fmt.Sprintf("MPUT %s %s ct=ocii body=%s", repo, g.pick([]string{"tw", "sha256:" + name}), name))
+	sj := ""
+	for _, c := range kids {
+		ci := g.h.bodyInfo(c)
+		if ci.kind != "image" && ci.kind != "index" {
+			continue
+		}
+		mt := ci.mtField
+		if mt == "" {
+			mt = "ocim"
+		}
+		for _, r := range ci.refs {
+			if strings.HasPrefix(r, "sha256:") && r != "sha256:" {
+				g.emit("UPOST " + repo + " digest=" + r + " body=" + strings.TrimPrefix(r, "sha256:"))
+			}
+		}
+		if out := g.emit(fmt.Sprintf("MPUT %s sha256:%s ct=%s body=%s", repo, c, mt, c)); strings.HasPrefix(out, "201 ") {
+			g.manIn[repo] = append(g.manIn[repo], c)
+			g.manMT[c] = mt
+		}
+		sj = ci.subj
+	}
+	if sj == "" {
+		return
+	}
+	g.subjects = append(g.subjects, sj)
+	refsLine := fmt.Sprintf("REFS %s %s", repo, sj)
+	g.emit(refsLine)
+	g.twinSteps(repo, name, refsLine)
 }
 
 // ---- raw profile: arbitrary methods and paths
